@@ -50,9 +50,9 @@ def value(tag, depth, k=None):
     if k == 3:
         return val.None_(*[v.type_() for v in vs])
     if k == 4:
-        return val.Left(vs, [tys.Qubit, tys.Bool])
+        return val.Left(iter(vs), [tys.Qubit, tys.Bool])     # any Iterable is accepted, also a one-shot iterator
     if k == 5:
-        return val.Right([tys.Bool], vs)
+        return val.Right([tys.Bool], (x for x in vs))
     el = leaf(tag + ".el")
     m = sym.concretize(sym.int(_f(tag + ".len"), 0, 2))
     elems = [el] * m
@@ -154,5 +154,8 @@ def function_constant_has_body_signature():
     rows = [([tys.Bool], 1), ([tys.Qubit, tys.Bool], 2), ([], 0)][k]
     d = Dfg(*rows[0])
     d.set_outputs(*d.inputs())
+    delta = ["arithmetic.int"] if sym.concretize(sym.bool("body_has_extension_delta")) else []
+    d.parent_op._extension_delta = list(delta)
     f = val.Function(d.hugr)
-    sym.check("function_constant_signature", f.type_() == tys.FunctionType(rows[0], rows[0]) and inhabits(f) == [])
+    sym.check("function_constant_signature", f.type_() == tys.FunctionType(rows[0], rows[0], delta) and inhabits(f) == []
+              and f.type_() == d.hugr.root_op().inner_signature())
